@@ -26,7 +26,8 @@ def weights(repo):
     path = os.path.join(repo, PATH)
     common = {"self.gnorm": sym("g"), "self.alpha": sym("alpha"), "self.cell_area": sym("A"), "gpu.cp.pi": sym("PI"), "self.sum_gweight": sym("sumW"),
               "gpu.cp.exp": un("exp"), "gpu.cp.sqrt": un("sqrt"), "gpu.erfc": fn("erfc"), "gpu.erf": fn("erf"),
-              "dist[..., 2][..., np.newaxis]": sym("z"), "dist[..., 2]": sym("z")}
+              "dist[..., 2][..., np.newaxis]": sym("z"), "dist[..., 2]": sym("z"), "dist[..., 2, np.newaxis]": sym("z"), "dist[..., 2, None]": sym("z"),
+              "dist[..., 2][..., None]": sym("z"), "dist[..., 2:3]": sym("z"), "dist[..., 2:]": sym("z")}
     out = {}
     for nm, env0 in (("ewald_recip_weight", {}), ("ewald_recip_weight_charge", {}), ("ewald_self", {"sum_charge_squared": ("s", "q2")})):
         se = SymExec(common)
